@@ -371,6 +371,12 @@ struct Oracle {
 }
 
 impl Oracle {
+    /// names of the current (pending) view according to the requests accepted so far
+    fn current_names(&self) -> Vec<(usize, String)> {
+        let mut ids: Vec<usize> = self.prev_variant.clone().unwrap_or_default().into_iter().filter(|d| !self.pending_rm.contains(d)).collect();
+        ids.extend(self.pending_add.iter().cloned());
+        ids.into_iter().filter_map(|d| self.names.get(&d).map(|n| (d, n.clone()))).collect()
+    }
     fn hit(&mut self, p: &str, m: String) {
         if self.hits.len() < 20 {
             self.hits.push((p.to_string(), m));
@@ -546,6 +552,9 @@ impl<'a> Session<'a> {
         match res {
             Ok(Ok(id)) => {
                 self.out.emit(&line, &format!("ok {}", id));
+                if self.ora.current_names().iter().any(|(_, n)| n == &r.name) {
+                    self.ora.hit("C12", format!("datum named {} accepted although that name is already in the current variant", r.name));
+                }
                 // C18 oracle: what was recorded is what the resolver / the explicit override supplied
                 if let Some((_, sz, al)) = self.sut.as_ref().unwrap().layout(id) {
                     if sz != r.size || al != r.align {
@@ -563,6 +572,9 @@ impl<'a> Session<'a> {
                 let after = self.sut.as_ref().unwrap().cur();
                 if after != before_cur {
                     self.ora.hit("C12", format!("rejected add changed the current data {:?} -> {:?}", before_cur, after));
+                }
+                if !self.ora.current_names().iter().any(|(_, n)| n == &r.name) {
+                    self.ora.hit("C12", format!("valid request rejected: no datum named {} is in the current variant ({})", r.name, e));
                 }
                 None
             }
@@ -633,7 +645,14 @@ impl<'a> Session<'a> {
         let toks: Vec<&str> = q.split(' ').collect();
         let ans = match toks[0] {
             "cur" => format!("ids {}", join(&sut.cur())),
-            "byname" => sut.byname(toks[1]).map(|i| format!("some {}", i)).unwrap_or("none".into()),
+            "byname" => {
+                let got = sut.byname(toks[1]);
+                let want = self.ora.current_names().iter().find(|(_, n)| n == toks[1]).map(|(d, _)| *d);
+                if got != want {
+                    self.ora.hit("C12", format!("lookup of {} in the current variant gives {:?}, the current variant has {:?}", toks[1], got, want));
+                }
+                got.map(|i| format!("some {}", i)).unwrap_or("none".into())
+            }
             "vbyname" => sut.vbyname(toks[1].parse().unwrap(), toks[2]).map(|i| format!("some {}", i)).unwrap_or("none".into()),
             "get" => sut.get(toks[1].parse().unwrap()).map(|i| format!("some {}", i.replace("  ", " "))).unwrap_or("none".into()),
             "variant" => sut.variant(toks[1].parse().unwrap()).map(|l| format!("some [{}]", join(&l))).unwrap_or("none".into()),
@@ -912,6 +931,7 @@ fn random_history(rng: &mut Rng, out: &mut Out, stats: &mut Stats, hist: usize) 
     let mut last_strat = None;
     let mut has_zst = false;
     let mut names_live: Vec<(usize, String)> = vec![];
+    let mut reuse: Vec<String> = vec![];
     for _v in 0..nvar {
         if s.dead { break; }
         // removals
@@ -922,6 +942,11 @@ fn random_history(rng: &mut Rng, out: &mut Out, stats: &mut Stats, hist: usize) 
                     if s.rm(id) {
                         live.retain(|&x| x != id);
                         stale.push(id);
+                        if let Some((_, n)) = names_live.iter().find(|x| x.0 == id).cloned() {
+                            // the name of a datum pending removal is free again: look it up / re-use it right away
+                            if rng.chance(1, 5) { s.query(&format!("byname {}", n)); }
+                            if rng.chance(1, 5) { reuse.push(n); }
+                        }
                         names_live.retain(|x| x.0 != id);
                     }
                 }
@@ -946,7 +971,7 @@ fn random_history(rng: &mut Rng, out: &mut Out, stats: &mut Stats, hist: usize) 
                 }
             }
             // names: mostly fresh, sometimes reuse the name of a removed datum (legal)
-            let name = if !stale.is_empty() && rng.chance(1, 10) { format!("f{}", rng.below(name_ctr + 1)) } else { name_ctr += 1; format!("f{}", name_ctr) };
+            let name = if !reuse.is_empty() && rng.chance(1, 2) { reuse.remove(0) } else if !stale.is_empty() && rng.chance(1, 10) { format!("f{}", rng.below(name_ctr + 1)) } else { name_ctr += 1; format!("f{}", name_ctr) };
             let r = gen_add(rng, table, native, name.clone(), zst_heavy);
             if r.size == 0 { has_zst = true; }
             if let Some(id) = s.add(&r) {
